@@ -74,17 +74,31 @@ pub fn gen_table(rng: &mut Rng, max_cols: usize) -> (Vec<(String, Ty)>, Vec<Vec<
     (cols, rows)
 }
 
-/// an IN list with a column-free element that contains a CASE
-fn inlist_const_case(e: &Expr) -> bool {
+/// an IN list with an element that contains a CASE (the engine evaluates the list on an EMPTY
+/// batch to decide whether it is constant; a CASE then yields its ELSE value as a scalar)
+pub fn inlist_const_case(e: &Expr) -> bool {
     let mut hit = false;
     let _ = e.map(&mut |x: Expr| {
         if let Expr::In(_, _, l) = &x {
             for el in l {
                 let mut cs = std::collections::BTreeSet::new();
                 el.constructs(&mut cs);
-                if !el.has_col() && (cs.contains("case-searched") || cs.contains("case-simple")) {
+                if cs.contains("case-searched") || cs.contains("case-simple") {
                     hit = true;
                 }
+            }
+        }
+        x
+    });
+    hit
+}
+
+fn neg_of_constant(e: &Expr) -> bool {
+    let mut hit = false;
+    let _ = e.map(&mut |x: Expr| {
+        if let Expr::Neg(a) = &x {
+            if !a.has_col() {
+                hit = true;
             }
         }
         x
@@ -136,9 +150,17 @@ fn generic(run: &mut Run, rng: &mut Rng) {
         }
         // known finding: a constant CASE inside an IN list is evaluated on an EMPTY batch when the
         // static filter is built, where it yields its ELSE value
-        let shape = if inlist_const_case(&e) { "-inlist-constant-case" } else { "" };
+        // known finding: unary minus of a SCALAR uses the checked `ScalarValue::arithmetic_negate`
+        // (overflow error on MIN) while the array kernel `neg_wrapping` wraps
+        let shape = if inlist_const_case(&e) {
+            "-inlist-case-element"
+        } else if neg_of_constant(&e) {
+            "-neg-of-constant"
+        } else {
+            ""
+        };
         if !shape.is_empty() {
-            run.count("shape:in-list-with-constant-case-element");
+            run.count(&format!("shape:{}", &shape[1..]));
         }
         run.case(&format!("evalrows{shape}"), &format!("({} {} {})", e.sexp(), rows_sexp(&rows), impl_sexp(&res)), "ok", varies);
 
